@@ -849,7 +849,7 @@ STATIC_FILES = ["C15/Syntax.v", "C15/WordFacts.v", "C15/Bytes.v", "C15/Peephole.
 GEN_FILES = ["C15/GenUtils.v", "C15/Optimizer.v", "C15/OptTree.v", "C15/FoldSound.v", "C15/PropsFold.v", "C15/OptSound.v",
              "C15/OptTreeSound.v", "C15/MergeSound.v", "C15/MemInst.v", "C15/SymSound.v", "C15/SymHered.v", "C15/PropsOpt.v",
              "C15/Lower.v", "C15/LowerSound.v", "C15/LowerFlow.v", "C15/FlowSound.v", "C15/RetRewrite.v",
-             "C15/RetRewriteSound.v", "C15/StmtSound.v", "C15/StmtLabels.v", "C15/PropsLower.v"]
+             "C15/RetRewriteSound.v", "C15/StmtSound.v", "C15/StmtLabels.v", "C15/JointInst.v", "C15/PropsLower.v"]
 
 
 def _build(ctx):
